@@ -107,6 +107,11 @@ def build_events(stream, info=None):
                 return None
             counter[0] += 1
             name = ["a%d", "A-%d", "z_%d", "Z9-%d_"][counter[0] % 4] % counter[0]
+            # now and then (a pure function of the position in the stream) a name at and around the lengths where a key stops
+            # being a simple key (128) or a simple key stops being readable (1024)
+            sel = (counter[0] * 2654435761 + len(out) * 40503) % 89
+            if sel < 7:
+                name = name + "x" * ([127, 128, 129, 1023, 1024, 1030, 2000][sel] - len(name))
             anchors.append(name)
             return name
 
